@@ -27,6 +27,10 @@ def scalar_ctor(cls="MultiVector"):
                 return T.num(Fraction(v), cls)
             if isinstance(v, T):
                 return v
+            if isinstance(v, Obj) and v.kind == "reciprocal":
+                o = Obj("MultiVector", {"_keys": (0,), "_values": [v]})
+                o.methods["values"] = lambda: [v]
+                return o
         return Unk("scalar(...)")
     return scalar
 
@@ -177,7 +181,7 @@ def tree_interp(repo, d: int = 3, pss_sign: int = 1, r: int = 0, cls: str = "Mul
     blades = Obj("blades", {"e": T.num(1, cls)})
     attrs = {"d": d, "r": r, "pss": T.var("pss", cls), "blades": blades, "signs": Obj("dict", getitem=signs_getitem)}
     attrs.update(extra_attrs or {})
-    it = make_interp(repo, attrs, {"__len__": lambda: 2 ** d},
-                     opaque_calls=("grade", "filter", "map", "items", "keys", "values", "grades", "type_number", "free_symbols",
+    it = make_interp(repo, attrs, {"__len__": lambda: 2 ** d}, opaque_calls=("grade", "filter", "map", "items", "keys", "values", "grades", "type_number", "free_symbols",
                                    "issymbolic", "shape"))
+    it.scalar_reciprocals = True
     return it
